@@ -73,7 +73,15 @@ func runPlan(run *ev.Run, p searchPlan, mon func(*wh.Step), extraReqs func(g *wh
 
 func unknownReqs(g *wh.CPGen, u *uni.U, la wh.LogCfg) []wh.Req {
 	cp, meta := g.Get(la, u.Main, 3, "plain")
+	// Refused only after the store was opened for writing: the cosigned form
+	// would exceed the note format's signature limit. Submitted for a log
+	// that never holds a checkpoint (log C is not configured here, so use a
+	// third configured log where available) and for log A itself.
+	cpJ, mJ := g.Get(la, u.Main, 3, "junk99")
+	mJ.Broken = true // outside wmodel: must be refused, never stored
 	return []wh.Req{
+		{LogID: la.ID(), Old: 0, CP: cpJ, Meta: mJ, Label: "main@3 with 99 extra signature lines old=0 (unreadable once cosigned)"},
+		{LogID: la.ID(), Old: 3, CP: cpJ, Meta: mJ, Label: "main@3 with 99 extra signature lines old=3 (unreadable once cosigned)"},
 		{LogID: "0000unknown", Old: 0, CP: cp, Meta: meta, Label: "unknown-id"},
 		{LogID: uni.ID("verif.example/not-configured"), Old: 0, CP: cp, Meta: meta, Label: "unknown-origin-id"},
 	}
@@ -97,11 +105,11 @@ func c01(tier string) int {
 		run.Add("transitions", tr)
 		run.Add("traces_validated_against_impl", tr)
 		run.Add("evaluations", tr)
-		pathExhaustive(run, "C01", c01Monitor(run))
 	}
+	pathExhaustive(run, tier, c01Monitor(run))
 	for _, k := range []string{"first-use", "growth", "refresh"} {
 		if run.HistGet("accepted_kinds", k) == 0 {
-			ev.Internal("vacuous: no accepted %s step was explored", k)
+			run.Vacuous("no accepted %s step was explored", k)
 		}
 	}
 	run.Set("exhaustive", true)
@@ -124,7 +132,7 @@ func c03(tier string) int {
 	c03StorageFailures(run)
 	for _, c := range []string{"unknown-log", "bad-signature", "old-size-too-large", "stale-old-size", "root-mismatch", "invalid-proof", "non-empty-proof-at-size-zero", "storage-failure"} {
 		if run.HistGet("refusal_classes", c) == 0 {
-			ev.Internal("vacuous: refusal class %q was never exercised", c)
+			run.Vacuous("refusal class %q was never exercised", c)
 		}
 	}
 	run.Set("exhaustive", true)
@@ -152,7 +160,7 @@ func c04(tier string) int {
 		for _, sh := range shapes {
 			for _, k := range []string{"first-use", "growth", "refresh"} {
 				if run.HistGet("accepted", sg+"|"+sh+"|"+k) == 0 {
-					ev.Internal("vacuous: no accepted %s step for signers %s shape %s", k, sg, sh)
+					run.Vacuous("no accepted %s step for signers %s shape %s", k, sg, sh)
 				}
 			}
 		}
@@ -194,7 +202,7 @@ func c20(tier string) int {
 	runPlan(run, p, mon, unknownReqs)
 	for _, c := range []string{wh.OK, wh.Unknown, wh.NoSig, wh.OldInvalid, wh.Stale, wh.RootMismatch, wh.BadProof} {
 		if run.HistGet("outcomes", c) == 0 {
-			ev.Internal("vacuous: outcome %q never occurred", c)
+			run.Vacuous("outcome %q never occurred", c)
 		}
 	}
 	run.Set("exhaustive", true)
